@@ -21,6 +21,7 @@ type SlotDef struct {
 	argType    slip.Object
 	docs       string
 	classStore bool
+	classInit  bool // the class allocated slot has been given a value
 	gettable   bool
 	settable   bool
 }
